@@ -52,7 +52,7 @@ DIMS = OrderedDict([
     ("ir", [False, True]),
     ("ires", [False, True]),
     ("kind", ["consistent", "small", "large"]),
-    ("dtype", ["float", "int"]),
+    ("dtype", ["float", "int", "whole"]),          # float64 / int64 even numbers / int64 generic whole numbers (C8.WHOLE)
     ("case", ["lower", "upper"]),
     ("order", ["given", "reversed", "rotated"]),
     ("extras", ["V", "P0", "rho", "c110"]),
@@ -352,7 +352,7 @@ def execute(c, small=True):
     """build the inputs of configuration c and run the real code once"""
     s = c["system"]
     S = supplied_components(s, c["mask"], c["z"], c["zc"])
-    ints = c["dtype"] == "int"
+    ints = {"float": False, "int": True, "whole": "whole"}[c["dtype"]]
     tol = DEFAULT_TOL if c["tol"] is None else c["tol"]
     A = relations_in_force(s, c["cwd"])
     E, vals, jstar = scenario(s, S, c["kind"], ints, small, tol, A, c["zc"] if z_inconsistent(c) else None, c["shape"],
@@ -399,7 +399,7 @@ def evaluate(c, small=True):
     """run ONE configuration on the real code and apply the oracle. Returns (viol, outcome, info)"""
     import pandas
     s = c["system"]
-    ints = c["dtype"] == "int"
+    ints = {"float": False, "int": True, "whole": "whole"}[c["dtype"]]
     S, tol, A, E, vals, jstar, table, nonmod, status, res = execute(c, small)
     suff = L.is_sufficient(s, S)
     norel = L.dimension(s) == 21
@@ -601,19 +601,19 @@ def run_lattice_case(case):
 
 def evaluate_with_values_of(c, b):
     """evaluate baseline b with the value set of c (int-valued numbers in float columns when c is the int variant)"""
-    if c["dtype"] == "int":
-        return _evaluate_float_of_ints(b)
+    if c["dtype"] in ("int", "whole"):
+        return _evaluate_float_of_ints(b, True if c["dtype"] == "int" else "whole")
     return evaluate(b)
 
 
-def _evaluate_float_of_ints(b):
+def _evaluate_float_of_ints(b, ints=True):
     """plain presentation, float64 columns, but the integer-valued numbers of the int variant"""
     import pandas
     s = b["system"]
     S = supplied_components(s, b["mask"], b["z"], b["zc"])
     tol = DEFAULT_TOL if b["tol"] is None else b["tol"]
     A = relations_in_force(s, "empty")
-    E, vals, _ = scenario(s, S, b["kind"], True, True, tol, A, b["zc"] if z_inconsistent(b) else None, b["shape"])
+    E, vals, _ = scenario(s, S, b["kind"], ints, True, tol, A, b["zc"] if z_inconsistent(b) else None, b["shape"])
     table, _ = make_table(S, vals, False, "lower", "given", "V")
     status, res = call_fill(s, table, "empty", b["ir"], b["ires"], b["drop"], b["tol"])
     if status != "ok" or not isinstance(res, pandas.DataFrame) or len(res) != NV:
@@ -861,7 +861,7 @@ def canon_lattice(case, subsets):
         return None
     c["mask"] = mask
     S = L.mask_to_subset(c["system"], mask)
-    if c["kind"] not in applicable_kinds(c["system"], S, ints=c["dtype"] == "int"):
+    if c["kind"] not in applicable_kinds(c["system"], S, ints=c["dtype"] != "float"):
         return None
     if c["z"] != "none":
         van = vanishing(c["system"])
@@ -1104,6 +1104,21 @@ def explore(ctx):
     ctx.notes["small_disagreements"] = {"deltas": [deltas(DEFAULT_TOL, False)[0], 0.01, 0.05], "which_component": ["first", "last"],
                                         "letter_case": ["lower", "upper", "mixed"],
                                         "configurations": len(small_api)}
+    # ---- G: integer-versus-float column type on every system: whole-number tables in int64 columns x the named subsets
+    cases = []
+    for s in L.SYSTEMS:
+        for label, mask in subsets[s].items():
+            if mask is None:
+                continue
+            for dt in ("int", "whole"):
+                cases.append({"what": "lattice", "system": s, "mask": mask, "dtype": dt})
+    seen, uniq = set(), []
+    for c in cases:
+        k = case_key(c)
+        if k not in seen:
+            seen.add(k)
+            uniq.append(c)
+    ctx.run(MOD, "run_case", uniq, part="integer-column-tables")
     # ---- F: user-written relations files: name kind x path style (content: the table's own relations, reference spelling)
     cases = []
     for s in L.SYSTEMS:
